@@ -93,6 +93,21 @@ def aliasLine (line : String) : Option String :=
       let k := kOfList objs
       let c := k.count q
       pure s!"ok {if c then 1 else 0} {if c then toString (k.idxOf q) else "-"} {showState k.toV}"
+  | ["khist", ops] => do
+      -- object-level history: `+o`/`?o` append (strict / permissive), `+~` auto-append, `p` pop, `c` clear, `r` relabel-as-integers
+      let parsed ← (csv ops).mapM fun (t : String) =>
+        match t.toList with
+        | ['p'] => some KState.KOp.pop
+        | ['c'] => some KState.KOp.clear
+        | ['r'] => some KState.KOp.relabelInts
+        | '+' :: '~' :: [] => some (KState.KOp.append none false)
+        | '+' :: r => (parsePyKeyChars r).map fun o => KState.KOp.append (some o) false
+        | '?' :: r => (parsePyKeyChars r).map fun o => KState.KOp.append (some o) true
+        | _ => none
+      let (k, flags) := parsed.foldl (fun (acc : KState × List Bool) op => ((acc.1.step op).1, acc.2 ++ [(acc.1.step op).2]))
+        ({ i2l := [], l2i := [], stop := 0 }, [])
+      let objs := (List.range k.stop).map fun i => showLabel (PyKey.canon (k.labelAt i))
+      pure s!"ok {String.intercalate "" (flags.map fun b => if b then "1" else "0")} {showState k.toV} {String.intercalate "," objs}"
   | _ => none
 
 def step (st : VState × List Label) (line : String) : (VState × List Label) × String :=
